@@ -453,6 +453,12 @@ func (mr MeshReader) Read(reader io.Reader) (*modeling.Mesh, error) {
 			}
 
 			contents := strings.Fields(text)
+			if len(contents) < len(vertexElement.Properties) {
+				return nil, fmt.Errorf(
+					"%q element %d has %d values, expected %d: %w",
+					mr.AttributeElement, i, len(contents), len(vertexElement.Properties), io.ErrUnexpectedEOF,
+				)
+			}
 
 			for _, reader := range asciiReaders {
 				err = reader.Read(contents, i)
